@@ -150,7 +150,13 @@ def iter_expect(s, D, root, target, cap, polls=2, exact=False):
     return " ".join(items)
 
 
+def iterable(types):
+    """types whose depth the harness can instantiate an iterator for"""
+    return [t for t in types if T.brute_meta(T.tup(t["schema"]))["depth"] <= 8]
+
+
 def cases_c03(types, rng, tier):
+    types = iterable(types)
     c = Cases(types)
     for t in types:
         s = T.tup(t["schema"])
@@ -178,6 +184,7 @@ def cases_c03(types, rng, tier):
 # ------------------------------------------------------------------------------- C11
 
 def cases_c11(types, rng, tier):
+    types = iterable(types)
     c = Cases(types)
     for t in types:
         s = T.tup(t["schema"])
@@ -260,7 +267,7 @@ def cases_c04(types, rng, tier):
     for t in types:
         s = T.tup(t["schema"])
         m = T.brute_meta(s)
-        nodes = T.all_nodes(s, limit=40 if tier == "quick" else 300)
+        nodes = T.all_nodes(s, limit=90 if tier == "quick" else 300)
         for p in nodes:
             typ = T.node_type(s, p)
             info = T.level_info(s, p)
@@ -312,6 +319,17 @@ def cases_c09(types, rng, tier):
             continue
         nodes = T.all_nodes(s, limit=400)
         seen = {}
+        # the bound itself: the implementation's max_bits must cover (and be attained by) the widest key
+        widest = max(T.packed_of(s, p)[1] for p in S.leaves(s))
+
+        def chk_bits(out, widest=widest, label=t["label"]):
+            mm = re.search(r"bits=(\d+)", out)
+            if not mm:
+                return f"no metadata for {label}: {out[:80]!r}"
+            if int(mm.group(1)) != widest:
+                return f"Metadata::max_bits of {label} is {mm.group(1)} but its widest packed key uses {widest} bits"
+            return None
+        c.add(t["tid"], "meta", chk_bits, f"max_bits bound of {t['label']}", "maxbits")
         for p in nodes:
             w, l = T.packed_of(s, p)
             assert w is not None and w not in seen, (t["label"], p)
@@ -322,12 +340,13 @@ def cases_c09(types, rng, tier):
                   f"packed key of node {p} of {t['label']}", "enc")
             c.add(t["tid"], f"xcode Q:{w} idx {BIG}", f"{typ} {len(p)} I:{','.join(map(str, p))}",
                   f"packed key {w} of {t['label']} must decode to node {p}", "dec")
-        D = T.pick_D(m["depth"])
         lv = S.leaves(s)
         ws = [T.packed_of(s, p)[0] for p in lv]
         assert ws == sorted(ws) and len(set(ws)) == len(ws), t["label"]
-        c.add(t["tid"], f"iter {D} - packed 0 1 0 {m['count'] + 5}", iter_expect(s, D, (), "packed", 0),
-              f"nodes::<Packed>() of {t['label']}: numeric order of the keys = iteration order", "order")
+        if m["depth"] <= 8:
+            D = T.pick_D(m["depth"])
+            c.add(t["tid"], f"iter {D} - packed 0 1 0 {m['count'] + 5}", iter_expect(s, D, (), "packed", 0),
+                  f"nodes::<Packed>() of {t['label']}: numeric order of the keys = iteration order", "order")
     return c
 
 
